@@ -1,9 +1,12 @@
 // shared by the harness (c20.rs) and by /verif/fmtcfg: the palette of element renderings (must
 // match lean/Driver/Fmt.lean), the element type, and the observation text
 
-pub const PALETTE: [&str; 20] = [
+pub const PALETTE: [&str; 22] = [
     "", "a", "ab", "äöü", "x\ny", "\n", "p\r\nq", "a longer rendering", "日本", "a\n\nb", "tail\n", "\r",
     "7", "-12", "3.25", "wide\nw\nlonger line", " ", "\n\n", "é", "tab\there",
+    // wider than any fixed-size padding buffer one might think of (70 ASCII, 65 two-byte characters)
+    "wwwwwwwwwwwwwwwwwwwwwwwwwwwwwwwwwwwwwwwwwwwwwwwwwwwwwwwwwwwwwwwwwwwwww",
+    "ééééééééééééééééééééééééééééééééééééééééééééééééééééééééééééééééé",
 ];
 
 #[derive(Clone)]
